@@ -49,13 +49,24 @@ func c12StartsByteString(t *c11Ty) bool {
 
 func c12Gen(r *vhRng) string {
 	q := &c12Q
-	if len(q.queue) == 0 && r.Chance(1, 6) { // a Go map destination (nil or made)
-		return c11MapGen(r, 2)
+	if len(q.queue) == 0 && r.Chance(1, 6) { // a Go map destination (nil, made or dirty)
+		for {
+			line := c11MapGen(r, 2)
+			f := strings.Fields(line)
+			if !c12TooCostly(c11MapTy(c11ParseTy(f[1]), c11ParseTy(f[2])), vhUnhex(f[3])) {
+				return line
+			}
+		}
 	}
 	if len(q.queue) == 0 {
 		t := c11GenTopTy(r)
 		ts := t.String()
-		add := func(b []byte) { q.queue = append(q.queue, "d "+ts+" "+vhHex(b)) }
+		add := func(b []byte) {
+			if c12TooCostly(t, b) {
+				return
+			}
+			q.queue = append(q.queue, "d "+ts+" "+vhHex(b))
+		}
 		if r.Chance(1, 12) { // unrelated random input
 			for _, n := range []int{r.Intn(12), r.Intn(40)} {
 				b := r.Bytes(n)
@@ -112,6 +123,9 @@ func c12Gen(r *vhRng) string {
 			}
 			add(b)
 		}
+	}
+	if len(q.queue) == 0 { // everything was filtered out
+		return c12Gen(r)
 	}
 	line := q.queue[0]
 	q.queue = q.queue[1:]
